@@ -99,6 +99,9 @@ func (p *Pool) take(i int) (interface{}, *uint32) {
 }
 
 func (p *Pool) Put(v interface{}) {
+	if !sched.Active() {
+		return // outside an exploration nothing is recycled: reference decodes always see fresh buffers
+	}
 	sched.Point("Pool.Put")
 	if f := p.push(v); f != nil {
 		atomic.StoreUint32(f, 1) // release
@@ -108,6 +111,9 @@ func (p *Pool) Put(v interface{}) {
 func (p *Pool) Get() interface{} {
 	sched.Point("Pool.Get")
 	n := p.count()
+	if !sched.Active() {
+		n = 0
+	}
 	if n == 0 {
 		if p.New == nil {
 			return nil
